@@ -308,6 +308,7 @@ void gvt_msg_drain(void)
 		if(unlikely(gvt != 0.0))
 			VH(VH_GVT_CONSUMED, NULL, VH_BITS(gvt), 1);
 		mpi_remote_msg_drain();
+		VH(VH_DRAIN, NULL, 5, 0);
 	}
 	// announce the arrival only when idle: a waiting thread leaves as soon as everybody arrived and it is idle itself
 	atomic_fetch_add_explicit(&drain_waiting, 1U, memory_order_acq_rel);
@@ -334,6 +335,7 @@ void gvt_msg_drain(void)
 		if(unlikely(gvt != 0.0))
 			VH(VH_GVT_CONSUMED, NULL, VH_BITS(gvt), 1);
 		mpi_remote_msg_drain();
+		VH(VH_DRAIN, NULL, 5, 0);
 	}
 
 	VH(VH_DRAIN, NULL, 1, 0);
@@ -354,6 +356,7 @@ void gvt_msg_drain(void)
 		while(gvt_completed == completed) {
 			gvt_phase_run();
 			mpi_remote_msg_drain();
+			VH(VH_DRAIN, NULL, 5, 0);
 		}
 		VH(VH_DRAIN, NULL, 3, i);
 	}
